@@ -60,6 +60,13 @@ def layouts(ctx):
     out.append(("diamond", {"w.json": W, "l.json": L, "r.json": R, "base.json": Bs},
                 {"http://x/w": ("example.com/w", "w/gen.go"), "http://x/l": ("example.com/l", "l/gen.go"), "http://x/r": ("example.com/r", "r/gen.go"), "http://x/base": ("example.com/base", "base/gen.go")},
                 [["w.json", "l.json", "r.json", "base.json"]], None))
+    # two unrelated files that use the same local reference text (inside allOf, and plainly) for different definitions
+    def withbase(i, base_props, extra):
+        return {"$id": "http://x/" + i, "type": "object", "definitions": {"Base": {"type": "object", "properties": base_props, "required": sorted(base_props)[:1]}},
+                "properties": {"m": {"allOf": [{"$ref": "#/definitions/Base"}, {"type": "object", "properties": extra}]}, "plain": {"$ref": "#/definitions/Base"}}}
+    out.append(("same-local-ref-text", {"a.json": withbase("a", {"alpha": {"type": "string"}}, {"x": {"type": "integer"}}),
+                                        "b.json": withbase("b", {"beta": {"type": "string", "minLength": 2}, "b2": {"type": "integer"}}, {"y": {"type": "integer"}})},
+                {"http://x/a": ("example.com/pa", "pa/gen.go"), "http://x/b": ("example.com/pb", "pb/gen.go")}, [["a.json", "b.json"]], None))
     return out
 
 
@@ -102,7 +109,14 @@ def run(ctx):
             for pi, perm in enumerate(perms):
                 runs.append(Run("l%dp%d" % (li, pi), fs, argv_for(maps, list(perm))))
                 meta.append((li, name, perm))
-    run_all(ctx, runs)
+    # every top-level file also on its own: its output must be the same as in the combined run
+    alone = []
+    for li, (name, files, maps, arglists, same_as) in enumerate(lay):
+        fs = {"in/" + k: json.dumps(v) for k, v in files.items()}
+        for a in arglists[0]:
+            if len(arglists[0]) > 1 and files[a].get("$id") in maps:
+                alone.append((li, a, Run("l%da%s" % (li, a.replace("/", "_").replace(".", "_")), fs, argv_for(maps, [a]))))
+    run_all(ctx, runs + [x[2] for x in alone])
     by = {}
     for r, (li, name, perm) in zip(runs, meta):
         by.setdefault(li, []).append((perm, r))
@@ -155,6 +169,15 @@ def run(ctx):
         ok, log = build_outputs(ctx, name, first.created)
         if not ok:
             viol(first, "layout %s: the emitted packages do not build together: %s" % (name, log[-400:]))
+        for li2, a, ra in alone:
+            if li2 != li:
+                continue
+            ctx.count({"layout": name, "alone": a}, True, "layouts/" + name)
+            target = "out/" + maps[files[a]["$id"]][1]
+            if ra.status != 0:
+                viol(ra, "layout %s: %s alone fails: %s" % (name, a, ra.stderr.decode("utf-8", "replace")[:200]))
+            elif ra.created.get(target) != first.created.get(target):
+                viol(ra, "layout %s: the code generated for %s (%s) differs between the run on that file alone and the combined run %s" % (name, a, target, lst[0][0]))
         # unrelated additions / top-only invocation leave the common files untouched
         if same_as and same_as in ref_outputs:
             for k, v in ref_outputs[same_as].items():
@@ -165,7 +188,7 @@ def run(ctx):
     replay_findings(ctx)
     ctx.cov["rule"] = ("7 layouts of 2-4 schema files (three packages with references through sub- and parent directories and a YAML file; the same plus an unrelated file; only "
                        "the top file on the command line; two packages whose import paths end in the same element; one package in two files; no mappings; a diamond of four "
-                       "files); every argument order (at most 24; every fourth in the quick tier beyond 6); observables: files written, package clauses, type names per package, "
+                       "files; two unrelated files using the same local reference text for different definitions); every top-level file also alone; every argument order (at most 24; every fourth in the quick tier beyond 6); observables: files written, package clauses, type names per package, "
                        "go build of all emitted packages in one module, byte identity across orders and against the layout it extends; non-trivial = every run")
     r = runs[0]
     ctx.sample({"family": "layouts", "argv": r.argv, "created": sorted(r.created), "status": r.status})
